@@ -4,7 +4,7 @@ SPELL = dict(IDENT="a", INT="1", FLOAT="1.5", STRING='"s"', RAW_STRING="`r`", LE
              NULL="null", LPAREN="(", RPAREN=")", LBRACE="{", RBRACE="}", LBRACKET="[", RBRACKET="]",
              COMMA=",", SEMICOLON=";", COLON=":", DOT=".", ASSIGN="=", PLUS_ASSIGN="+=", MINUS_ASSIGN="-=",
              PLUS="+", MINUS="-", MULTIPLY="*", DIVIDE="/", MODULO="%", EQ="==", NOT_EQ="!=", LT="<", GT=">",
-             LTE="<=", GTE=">=", AND="&&", OR="||", NOT="!", INCREMENT="++", DECREMENT="--", BADINT="0x",
+             LTE="<=", GTE=">=", AND="&&", OR="||", NOT="!", INCREMENT="++", DECREMENT="--", BADINT="0x", BIGINT="9223372036854775808", BIGFLOAT="1e999",
              DYN0="^", DYN1="@", DYN2="#", DYN3="~", DYN4="?")
 
 
